@@ -779,6 +779,20 @@ impl BytesMutReader for BytesMut {
     }
 }
 
+/// Reads a null-terminated string of the message protocol as the bytes the client wrote,
+/// for the parts of a message that are sent on: they are in the client's encoding, not always UTF-8.
+fn read_cstring_bytes(cursor: &mut Cursor<&BytesMut>) -> Result<Vec<u8>, Error> {
+    let mut buf = vec![];
+    match cursor.read_until(b'\0', &mut buf) {
+        Ok(_) if buf.last() == Some(&b'\0') => {
+            buf.pop();
+            Ok(buf)
+        }
+        Ok(_) => Err(Error::ParseBytesError("Could not read string".to_string())),
+        Err(err) => Err(Error::ParseBytesError(err.to_string())),
+    }
+}
+
 pub enum ExtendedProtocolData {
     Parse {
         data: BytesMut,
@@ -831,7 +845,7 @@ pub struct Parse {
     #[allow(dead_code)]
     len: i32,
     pub name: String,
-    query: String,
+    query: Vec<u8>,
     num_params: i16,
     param_types: Vec<i32>,
 }
@@ -844,7 +858,7 @@ impl TryFrom<&BytesMut> for Parse {
         let code = cursor.get_u8() as char;
         let len = cursor.get_i32();
         let name = cursor.read_string()?;
-        let query = cursor.read_string()?;
+        let query = read_cstring_bytes(&mut cursor)?;
         let num_params = cursor.get_i16();
         let mut param_types = Vec::new();
 
@@ -1080,8 +1094,8 @@ impl Bind {
         // Read basic data from the cursor
         let code = cursor.get_u8();
         let current_len = cursor.get_i32();
-        let portal = cursor.read_string()?;
-        let prepared_statement = cursor.read_string()?;
+        let portal = read_cstring_bytes(&mut cursor)?;
+        let prepared_statement = read_cstring_bytes(&mut cursor)?;
 
         // Calculate new length
         let new_len = current_len + new_name.len() as i32 - prepared_statement.len() as i32;
@@ -1091,8 +1105,7 @@ impl Bind {
         response_buf.put_u8(code);
         response_buf.put_i32(new_len);
 
-        // Put the portal and new name into the buffer
-        // Note: panic if the provided string contains null byte
+        // Put the portal, as the client wrote it, and the new name into the buffer
         response_buf.put_slice(CString::new(portal)?.as_bytes_with_nul());
         response_buf.put_slice(CString::new(new_name)?.as_bytes_with_nul());
 
